@@ -177,6 +177,27 @@ func init() {
 			return fmt.Sprintf("%d:%v", cut, err)
 		}
 	}
+	// messages from a later release: the last information element carries an identifier this release does not define
+	// (criticality ignore). All UEs meet the same new identifier at the same time.
+	families["ngap_decode_unknown_ie"] = func() job {
+		return func(g, i int) string {
+			b, err := tglib.GetUplinkNASTransport(int64(g)*1000+int64(i), int64(g), bytes.Repeat([]byte{0x7e, byte(g), byte(i)}, 3+g%5))
+			if err != nil {
+				return "err-build"
+			}
+			k := bytes.LastIndex(b, []byte{0x00, 0x79, 0x40})
+			if k < 0 {
+				return "err-no-uli"
+			}
+			b[k], b[k+1] = 0x0f, byte(i%200)
+			pdu, err := ngap.Decoder(b)
+			if err != nil {
+				return fmt.Sprintf("err:%v", err)
+			}
+			n := len(pdu.InitiatingMessage.Value.UplinkNASTransport.ProtocolIEs.List)
+			return fmt.Sprintf("ok:%d", n)
+		}
+	}
 	// downlink: every UE receives messages protected by its AMF (built here with the library's primitives, DIRECTION 1) and
 	// recovers them with tglib.NASDecode; the UEs use different algorithm pairs (NIA1/NEA2, NIA2/NEA1, NIA1/NEA1, NIA2/NEA2)
 	families["nas_unprotect"] = func() job {
